@@ -422,7 +422,7 @@ def analyse_parser(repo: str, max_tokens: int, use_cache: bool = True) -> List[d
         roots = frontier(prog, body, cfg, 6) if n >= 3 else [[]]
         for r in roots:
             tasks.append((str(prog.repo), n, r))
-    nproc = min(16, os.cpu_count() or 1)
+    nproc = min(int(os.environ.get("VERIF_JOBS", "16")), os.cpu_count() or 1)
     if nproc > 1 and len(tasks) > 4:
         ctx = mp.get_context("fork")
         with ctx.Pool(nproc) as pool:
@@ -432,8 +432,9 @@ def analyse_parser(repo: str, max_tokens: int, use_cache: bool = True) -> List[d
     recs = [r for ch in chunks for r in ch]
     try:
         cache.parent.mkdir(exist_ok=True)
-        for old in cache.parent.glob("parsecases-*.json"):
-            old.unlink()
+        if str(prog.repo) == "/repo":
+            for old in cache.parent.glob("parsecases-*.json"):
+                old.unlink()
         cache.write_text(json.dumps(recs))
     except Exception:
         pass
